@@ -204,7 +204,7 @@ fn main() {
         "a refusal (TooLongData) is accepted for any payload of 1024 bytes or more (0.6 cannot carry it in a 10-bit chunk size); below that it is a violation".into(),
     ];
     ctx.arm("c04", 1800.0);
-    let n = ctx.volume(120, 4_000, 1, 10);
+    let n = ctx.volume(120, 4_000, 3, 10);
     ctx.run_cases("chaos", n, |ctx, idx, rng| {
         let v = Variant::all()[(idx % 3) as usize];
         let moves = match ctx.tier {
